@@ -171,6 +171,16 @@ func (k *keyCtx) encCase(variant string, m, rho *big.Int) (out []finding) {
 		} else if d.Big().Cmp(m) != 0 {
 			add("dec-mismatch", fmt.Sprintf("Dec(Enc(m))=%s (reference Dec=%s)", short(d.Big()), short(k.ref.Dec(got))))
 		}
+		// history on ONE ciphertext object: decrypt it, open it, decrypt it again - reading a ciphertext must not change it
+		same := ct.Clone()
+		if d1, e1 := k.sk.Dec(same); e1 != nil || d1.Big().Cmp(m) != 0 || ctBig(same).Cmp(want) != 0 {
+			add("dec-modifies-ciphertext", fmt.Sprintf("after Dec(c) the object c holds %s (was %s), Dec=%v err=%v", short(ctBig(same)), short(want), d1, e1))
+		}
+		if _, _, e2 := k.sk.DecWithRandomness(same); e2 == nil && ctBig(same).Cmp(want) != 0 {
+			add("decrand-modifies-ciphertext", fmt.Sprintf("after DecWithRandomness(c) the object c holds %s (was %s): a second use of the same ciphertext sees another value", short(ctBig(same)), short(want)))
+		} else if d3, e3 := k.sk.Dec(same); e3 != nil || d3.Big().Cmp(m) != 0 {
+			add("dec-after-decrand-mismatch", fmt.Sprintf("Dec of the same object after DecWithRandomness = %v err=%v", d3, e3))
+		}
 		m2, r2, err := k.sk.DecWithRandomness(ct.Clone())
 		if err != nil {
 			add("decrand-error", "DecWithRandomness(Enc(m)) failed: "+err.Error())
